@@ -16,13 +16,19 @@
   theorems that tie it to the machine above (projection / refinement), so that every theorem of the
   first half also speaks about the full object.
 
+  Third part (from "result retrieval on the content of the answer" on): `Model/C17R.lean` — what
+  `_get_results` does with the content of the server's answer (decoding, the assignment before the
+  inspection, `job_context` / `result_mapping` / `mapping_delta_parameters` / `results_list`, the cache
+  test) and every operation of the machine under the real throttle with an explicit clock.
+
   Not modelled (see manifest.d/C17.json): `requests`/`RPCHandler` internals, the payload
-  (`_create_payload_data`, `_handle_params`, max_shots/max_samples), result post-processing
-  (`job_context` / `result_mapping`), `_running_phase`, the 1 ms sleep of `update_progress` when the
+  (`_create_payload_data`, `_handle_params`, max_shots/max_samples), the mapping function itself
+  (opaque: `RV.mapped`), `_running_phase`, the 1 ms sleep of `update_progress` when the
   clock runs backwards, the `metadata` of the dictionary, non-integer times, threads.
 -/
 import PercevalModel.Lemmas.C17
 import PercevalModel.Lemmas.C17X
+import PercevalModel.Lemmas.C17R
 
 set_option linter.unusedSimpArgs false
 
@@ -1082,6 +1088,268 @@ two silent polls between two requests) -/
 theorem sync_throttled_witness :
     ((syncLoopAt true 4 2 20 ⟨born 1, 0⟩ 100 [.status "running" 2, .status "completed" 2]).2.1.map (·.calls)) =
       [[.status (some 1)], [], [], [.status (some 1)]] := by
+  decide +kernel
+
+/-! # result retrieval on the content of the answer (`Model/C17R.lean`, part R)
+
+`rstep` = the base machine with `get_results` replaced by `getResultsR`, which works on what the
+server actually sent: a body with or without `results`, text that is or is not JSON, a decoded value
+of any shape, a `job_context` with or without `result_mapping` / `mapping_delta_parameters`, a
+`results_list` whose items may lack `results` / `iteration`. -/
+
+/-- every operation other than `get_results` is the operation of the base machine, so every theorem
+of the first part speaks about this machine too -/
+theorem results_machine_extends_base (fixed : Bool) (s : RJob) (op : Op) :
+    (rstep fixed s (.base op)).1.job = (step fixed s.job op).1 ∧
+    (rstep fixed s (.base op)).2 = (step fixed s.job op).2.toR := ⟨rfl, rfl⟩
+
+/-- "Results are refused while the job is unfinished", whatever the server would have answered to the
+results request (which is not sent) and whatever `_results` holds: the error, only the requests of
+the status read, nothing stored. -/
+theorem results_refused_while_unfinished (fixed : Bool) (s : RJob) (r1 r2 : Resp) (b : RBody)
+    (hok : (readStatus fixed s.job r1).2.1 = none)
+    (hun : (readStatus fixed s.job r1).1.status.maybeCompleted = false) :
+    (getResultsR fixed s r1 r2 b).2 =
+      ⟨.raised (.base .stillRunning), (readStatus fixed s.job r1).2.2⟩ ∧
+    (getResultsR fixed s r1 r2 b).1.val = s.val ∧
+    ∀ c ∈ (getResultsR fixed s r1 r2 b).2.calls, isResultsCall c = false := by
+  rw [getResultsR_refused fixed s r1 r2 b hok hun]
+  exact ⟨rfl, rfl, readStatus_no_results_call fixed s.job r1⟩
+
+example : (readStatus true (born 1) (.status "running" 0)).2.1 = none ∧
+    (readStatus true (born 1) (.status "running" 0)).1.status.maybeCompleted = false := by decide +kernel
+
+/-- conversely: a results request is only ever sent after a first status read that went through and
+left SUCCESS / ERROR / CANCELED / UNKNOWN in force (all states, all answers) -/
+theorem results_request_is_guarded (fixed : Bool) (s : RJob) (r1 r2 : Resp) (b : RBody)
+    (c : Call) (hc : c ∈ (getResultsR fixed s r1 r2 b).2.calls) (hr : isResultsCall c = true) :
+    (readStatus fixed s.job r1).2.1 = none ∧
+    (readStatus fixed s.job r1).1.status.maybeCompleted = true :=
+  getResultsR_request_guarded fixed s r1 r2 b c hc hr
+
+example : Call.results (some 1) ∈
+    (getResultsR true ⟨{ born 1 with status := .error }, none⟩ .conn .conn .noKey).2.calls := by decide +kernel
+
+/-- "a failed job reports its failure message": a job that is final with ERROR / CANCELED and holds no
+truthy result sends exactly the results request and, whenever the retrieval stumbles over the content
+of the answer (no `results` entry, `results: null`, a null / numeric value, a null `job_context`, an
+item or entry the mapping needs and does not find), raises 'The job failed: <stop message>' … -/
+theorem failed_job_reports_message_full (fixed : Bool) (s : RJob) (r1 r2 : Resp) (b : RBody)
+    (hf : s.job.status.failed = true) (hv : truthyVal s.val = false) (hb : b.lookupFails = true) :
+    (getResultsR fixed s r1 r2 b).2 = ⟨.raised (.base (.jobFailed s.job.msg)), [.results s.job.id]⟩ := by
+  have hfin : s.job.status.completed = true := by
+    cases hs : s.job.status <;> simp_all [St.failed, St.completed]
+  rw [getResultsR_final fixed s r1 r2 b hfin]
+  simp only [hv, Bool.false_eq_true, if_false]
+  have h1 := fetch_lookup s.job s.val [] b hb
+  have h2 := fetch_calls s.job s.val [] b
+  rw [lookupExc_failed hf] at h1
+  generalize fetch s.job s.val [] b = q at h1 h2
+  obtain ⟨s', o⟩ := q
+  obtain ⟨res, calls⟩ := o
+  simp only at h1 h2
+  simp [h1, h2]
+
+example : ({ born 1 with status := .canceled, msg := .server 3 } : Job).status.failed = true ∧
+    truthyVal none = false ∧
+    (RBody.payload (.dict ⟨none, some [⟨some (.raw 1), none⟩], .mapping .good (some [("a", 1)]), false⟩)).lookupFails
+      = true := by decide +kernel
+
+/-- … and in no case 'still running' or the anonymous 'Results are not available' -/
+theorem failed_job_never_unavailable (fixed : Bool) (s : RJob) (r1 r2 : Resp) (b : RBody)
+    (hf : s.job.status.failed = true) :
+    (getResultsR fixed s r1 r2 b).2.res ≠ .raised (.base .unavailable) ∧
+    (getResultsR fixed s r1 r2 b).2.res ≠ .raised (.base .stillRunning) := by
+  have hfin : s.job.status.completed = true := by
+    cases hs : s.job.status <;> simp_all [St.failed, St.completed]
+  rw [getResultsR_final fixed s r1 r2 b hfin]
+  split
+  · simp
+  · exact fetch_failed_outcomes s.job s.val [] b hf
+
+/-- the arguments of the mapping function for one item: exactly the delta parameters, in their
+order; the item's own `iteration` value where it has one of that name, the default otherwise; names
+that only occur in `iteration` are not passed -/
+theorem mapping_arguments_law (deltas iter : List (String × Nat)) :
+    (argsFor deltas iter).map Prod.fst = deltas.map Prod.fst ∧
+    (∀ k v x, (k, v) ∈ deltas → iter.lookup k = some x → (k, x) ∈ argsFor deltas iter) ∧
+    (∀ k v, (k, v) ∈ deltas → iter.lookup k = none → (k, v) ∈ argsFor deltas iter) :=
+  ⟨argsFor_keys deltas iter, argsFor_override deltas iter, argsFor_default deltas iter⟩
+
+/-- the mapping is applied exactly once to every item: for a final job without cached result and an
+answer whose `results_list` has what the loop needs, `get_results` sends the one results request,
+returns the dictionary with every item replaced by `f(item, **arguments)`, and stores that very
+value -/
+theorem mapping_applied_once (fixed : Bool) (s : RJob) (r1 r2 : Resp) (d : RDict)
+    (dl : Option (List (String × Nat))) (items : List Item)
+    (hfin : s.job.status.completed = true) (hv : truthyVal s.val = false) (hm : d.mappable dl items) :
+    (getResultsR fixed s r1 r2 (.payload (.dict d))).2 =
+      ⟨.value (.dict { d with rlist := some (mapSpec (dl.getD []) items) }), [.results s.job.id]⟩ ∧
+    (getResultsR fixed s r1 r2 (.payload (.dict d))).1.val =
+      some (.dict { d with rlist := some (mapSpec (dl.getD []) items) }) := by
+  rw [getResultsR_final fixed s r1 r2 _ hfin]
+  simp only [hv, Bool.false_eq_true, if_false]
+  simp [fetch, process_mappable d dl items hm]
+
+example : (⟨none, some [⟨some (.raw 1), some [("a", 5)]⟩, ⟨some (.raw 2), some []⟩],
+    .mapping .good (some [("a", 1)]), false⟩ : RDict).mappable (some [("a", 1)])
+    [⟨some (.raw 1), some [("a", 5)]⟩, ⟨some (.raw 2), some []⟩] := by
+  refine ⟨rfl, rfl, ?_⟩
+  intro it hit
+  simp only [List.mem_cons, List.not_mem_nil, or_false] at hit
+  rcases hit with rfl | rfl <;> simp
+
+/-- same for an answer with a single `results` entry: mapped once with the delta parameters -/
+theorem mapping_applied_once_single (fixed : Bool) (s : RJob) (r1 r2 : Resp) (d : RDict)
+    (dl : Option (List (String × Nat))) (v : RV)
+    (hfin : s.job.status.completed = true) (hv : truthyVal s.val = false)
+    (h1 : d.ctx = .mapping .good dl) (h2 : d.rlist = none) (h3 : d.results = some v) :
+    (getResultsR fixed s r1 r2 (.payload (.dict d))).2 =
+      ⟨.value (.dict { d with results := some (.mapped v (dl.getD [])) }), [.results s.job.id]⟩ := by
+  rw [getResultsR_final fixed s r1 r2 _ hfin]
+  simp only [hv, Bool.false_eq_true, if_false]
+  simp [fetch, process_single d dl v h1 h2 h3]
+
+/-- an answer without `job_context` (or with one that names no mapping) is handed out untouched -/
+theorem unmapped_results_untouched (fixed : Bool) (s : RJob) (r1 r2 : Resp) (d : RDict)
+    (hfin : s.job.status.completed = true) (hv : truthyVal s.val = false)
+    (h : d.ctx = .absent ∨ d.ctx = .noMapping) :
+    (getResultsR fixed s r1 r2 (.payload (.dict d))).2 = ⟨.value (.dict d), [.results s.job.id]⟩ := by
+  rw [getResultsR_final fixed s r1 r2 _ hfin]
+  simp only [hv, Bool.false_eq_true, if_false]
+  simp [fetch, process_no_context d h]
+
+/-- … and never again: once a final job holds a truthy result, over EVERY later history on that
+object (any operations, any answers) every `get_results` returns that very value without any
+request — no second fetch, no second mapping — and the stored value never changes -/
+theorem cached_results_stable (fixed : Bool) (s : RJob) (p : Payload) (post : List ROp)
+    (hfin : s.job.status.completed = true) (hv : s.val = some p) (ht : p.truthy = true)
+    (hns : ∀ op ∈ post, ∀ o, op = .base o → o.stays = true) :
+    (exec (rstep fixed) s post).val = some p ∧
+    (∀ r1 r2 b, (rstep fixed (exec (rstep fixed) s post) (.getResults r1 r2 b)).2 = ⟨.value p, []⟩) ∧
+    ∀ o ∈ (run (rstep fixed) s post).2, ∀ c ∈ o.calls, isResultsCall c = false := by
+  have hstep : ∀ (x : RJob) (op : ROp), (∀ o, op = .base o → o.stays = true) →
+      (x.job.status = s.job.status ∧ x.val = some p) →
+      ((rstep fixed x op).1.job.status = s.job.status ∧ (rstep fixed x op).1.val = some p) ∧
+        ∀ c ∈ (rstep fixed x op).2.calls, isResultsCall c = false := by
+    intro x op hop hx
+    have hc : x.job.status.completed = true := by rw [hx.1]; exact hfin
+    obtain ⟨h1, h2, h3, _⟩ := rstep_final_cached fixed x op p hc hx.2 ht
+      (fun o ho => Op.stays_switches (hop o ho))
+    refine ⟨⟨h1.trans hx.1, h2⟩, ?_⟩
+    intro c hcm
+    cases op with
+    | getResults r1 r2 b => rw [h3 r1 r2 b rfl] at hcm; simp at hcm
+    | base o => exact step_final_no_results_call fixed x.job o hc (hop o rfl) c (by simpa [rstep, Out.toR] using hcm)
+  have hinv := inv_exec_of (rstep fixed) (fun op => ∀ o, op = .base o → o.stays = true)
+    (fun x => x.job.status = s.job.status ∧ x.val = some p)
+    (fun x op hop hx => (hstep x op hop hx).1) s ⟨rfl, hv⟩ post hns
+  refine ⟨hinv.2, ?_, outputs_run_of (rstep fixed) (fun op => ∀ o, op = .base o → o.stays = true)
+    (fun x => x.job.status = s.job.status ∧ x.val = some p)
+    (fun o => ∀ c ∈ o.calls, isResultsCall c = false) hstep s ⟨rfl, hv⟩ post hns⟩
+  intro r1 r2 b
+  have hc : (exec (rstep fixed) s post).job.status.completed = true := by rw [hinv.1]; exact hfin
+  exact (rstep_final_cached fixed _ (.getResults r1 r2 b) p hc hinv.2 ht (fun o ho => by cases ho)).2.2.1 r1 r2 b rfl
+
+example : (Payload.dict ⟨some (.mapped (.raw 1) []), none, .mapping .good none, false⟩).truthy = true ∧
+    ∀ op ∈ [ROp.base (.poll .status .conn), .getResults .conn .conn .badJson, .base (.rerun .conn .conn (.ok 2) false)],
+      ∀ o, op = .base o → o.stays = true := by
+  refine ⟨by decide, ?_⟩
+  intro op hop o ho
+  simp only [List.mem_cons, List.not_mem_nil, or_false] at hop
+  rcases hop with rfl | rfl | rfl <;> (cases ho; try rfl)
+
+/-- what the code does when the retrieval stumbles AFTER `self._results = …`: the half-processed value
+stays in `_results`.  A final failed job whose answer has a second item without `iteration` first
+raises 'The job failed: …' and then, asked again, hands out the dictionary with the first item mapped
+and the second not, without any request.  Modelled and compared as it is; the property statement
+does not speak about it. -/
+theorem stumbling_retrieval_is_cached_witness :
+    let d : RDict := ⟨none, some [⟨some (.raw 1), some []⟩, ⟨some (.raw 2), none⟩], .mapping .good (some [("a", 7)]), false⟩
+    let s0 : RJob := ⟨{ born 1 with status := .error, msg := .server 3 }, none⟩
+    let p1 := rstep true s0 (.getResults .conn .conn (.payload (.dict d)))
+    let p2 := rstep true p1.1 (.getResults .conn .conn .noKey)
+    p1.2 = ⟨.raised (.base (.jobFailed (.server 3))), [.results (some 1)]⟩ ∧
+    p2.2 = ⟨.value (.dict { d with rlist := some [⟨some (.mapped (.raw 1) [("a", 7)]), some []⟩, ⟨some (.raw 2), none⟩] }), []⟩ := by
+  decide +kernel
+
+/-- malformed result text is NOT turned into the job's failure message: `json.JSONDecodeError` is a
+ValueError and passes through `get_results` (code as it is) -/
+theorem bad_json_passes_through_witness :
+    (rstep true ⟨{ born 1 with status := .error, msg := .server 3 }, none⟩ (.getResults .conn .conn .badJson)).2 =
+      ⟨.raised .jsonDecode, [.results (some 1)]⟩ := by
+  decide +kernel
+
+/-! # every operation under the real throttle (`Model/C17R.lean`, part K) -/
+
+/-- With a negative refresh delay and a clock that does not run backwards (and is not negative: a new
+object starts with `_previous_status_refresh = 0`) the clocked machine IS the main model over every
+history: same job, same outputs.  This is what justifies running the real code with
+`STATUS_REFRESH_DELAY = -1` in the main correspondence — now for all operations, including the double
+reads of `rerun` / `get_results` and the jobs born from `rerun`. -/
+theorem negative_delay_machine_is_plain (fixed : Bool) (delay : Int) (hd : delay < 0) (ks : List KOp)
+    (hmono : Monotone 0 ks) :
+    (run (kstep fixed delay) kinit ks).1.job = (run (step fixed) init (ks.map (·.op))).1 ∧
+    (run (kstep fixed delay) kinit ks).2 = (run (step fixed) init (ks.map (·.op))).2 :=
+  krun_neg fixed delay hd ks kinit 0 (Int.le_refl 0) (Int.le_refl 0) hmono
+
+example : Monotone 0 [⟨1, 1, .execute (.ok 1)⟩, ⟨1, 2, .rerun .conn .conn (.ok 2) true⟩, ⟨2, 2, .poll .status .conn⟩] := by
+  simp [Monotone]
+
+/-- one step of it, from any state -/
+theorem negative_delay_step_is_plain (fixed : Bool) (delay : Int) (t : TJob) (k : KOp) (hd : delay < 0)
+    (hm : t.prev ≤ k.now1) (h12 : k.now1 ≤ k.now2) (h0 : 0 ≤ k.now2) :
+    (kstep fixed delay t k).1.job = (step fixed t.job k.op).1 ∧
+    (kstep fixed delay t k).2 = (step fixed t.job k.op).2 ∧
+    (kstep fixed delay t k).1.prev ≤ k.now2 :=
+  kstep_neg fixed delay t k hd hm h12 h0
+
+example : (-1 : Int) < 0 ∧ kinit.prev ≤ 3 ∧ (3 : Int) ≤ 4 ∧ (0 : Int) ≤ 4 := by decide
+
+/-- a final job does not look at the clock: whatever the delay and the times, every operation on it is
+the operation of the main model (so `final_absorbing`, `final_reported_forever`, `rerun_guard`,
+`results_guard` … hold of it under the real throttle) -/
+theorem final_job_ignores_clock (fixed : Bool) (delay : Int) (t : TJob) (k : KOp)
+    (hfin : t.job.status.completed = true) :
+    (kstep fixed delay t k).1.job = (step fixed t.job k.op).1 ∧
+    (kstep fixed delay t k).2 = (step fixed t.job k.op).2 :=
+  kstep_final fixed delay t k hfin
+
+example : (⟨{ born 1 with status := .canceled }, 0⟩ : TJob).job.status.completed = true := by decide
+
+/-- inside the refresh delay the guards are evaluated on the status the object holds, and the server
+is not asked: `cancel()` goes through (one cancel request, nothing else) iff the held status is
+WAITING / RUNNING / SUSPENDED … -/
+theorem throttled_cancel_uses_held_status (fixed : Bool) (delay : Int) (t : TJob) (now : Int) (r : Resp)
+    (n : Nat) (h : now - t.prev ≤ delay) :
+    (cancelAt fixed delay t now r (.ok n)).2 =
+      if t.job.status.cancellable then ⟨.ok, [.cancel t.job.id]⟩ else ⟨.raised .notCancellable, []⟩ := by
+  simp only [cancelAt, throttled_read_is_noop fixed delay t now r h]
+  split <;> simp
+
+/-- … `rerun()` of a job held as not failed is refused without any request (both reads throttled),
+whatever the server would say … -/
+theorem throttled_rerun_refused (fixed : Bool) (delay : Int) (t : TJob) (now1 now2 : Int) (r1 r2 : Resp)
+    (hr : HResp) (sw : Bool) (h1 : now1 - t.prev ≤ delay) (h2 : now2 - t.prev ≤ delay)
+    (hnf : t.job.status.failed = false) :
+    rerunAt fixed delay t now1 now2 r1 r2 hr sw = (t, ⟨.raised .notRerunnable, []⟩) := by
+  simp [rerunAt, throttled_read_is_noop fixed delay t now1 r1 h1, throttled_read_is_noop fixed delay t now2 r2 h2, hnf]
+
+/-- … and `get_results()` of a job held as unfinished is refused without any request -/
+theorem throttled_results_refused (fixed : Bool) (delay : Int) (t : TJob) (now1 now2 : Int) (r1 r2 : Resp)
+    (hr : RResp) (h1 : now1 - t.prev ≤ delay) (hun : t.job.status.maybeCompleted = false) :
+    getResultsAt fixed delay t now1 now2 r1 r2 hr = (t, ⟨.raised .stillRunning, []⟩) := by
+  simp [getResultsAt, throttled_read_is_noop fixed delay t now1 r1 h1, hun]
+
+example : (3 : Int) - 0 ≤ 4 ∧ (⟨born 1, 0⟩ : TJob).job.status.failed = false ∧
+    (⟨born 1, 0⟩ : TJob).job.status.maybeCompleted = false := by decide
+
+/-- the second status read of `rerun` (the one that builds the error message) comes within the delay
+of the first whenever the first was sent: with the shipped delay and a real clock it never reaches
+the server (delay 4, both reads at time 10) -/
+theorem rerun_second_read_throttled_witness :
+    (rerunAt true 4 ⟨born 1, 0⟩ 10 10 (.status "running" 0) (.status "error" 0) (.ok 2) false).2 =
+      ⟨.raised .notRerunnable, [.status (some 1)]⟩ := by
   decide +kernel
 
 end PM.C17
